@@ -36,7 +36,7 @@ func sizeGuardFact(f fact, param *ssa.Parameter) bool {
 			return false
 		}
 		b, ok := c.Call.Value.(*ssa.Builtin)
-		return ok && b.Name() == "len" && c.Call.Args[0] == ssa.Value(param)
+		return ok && b.Name() == "len" && sameVal(c.Call.Args[0], param)
 	}
 	if !isLen(cm.X) {
 		return false
@@ -97,7 +97,7 @@ func runC06(c *Ctx) {
 	copied := false
 	for _, in := range findU(W, func(in ssa.Instruction) bool { return isCall(in, "builtin.copy") }) {
 		args := in.(ssa.CallInstruction).Common().Args
-		if derivesFrom(args[1], func(v ssa.Value) bool { return v == ssa.Value(packet) }, false) && r.isRingWrite(in) {
+		if derivesFrom(args[1], func(v ssa.Value) bool { return sameVal(v, packet) }, false) && r.isRingWrite(in) {
 			copied = true
 		}
 	}
@@ -240,6 +240,23 @@ func runC06(c *Ctx) {
 		for _, field := range []string{r.head, r.tail} {
 			for _, in := range findU(f, func(in ssa.Instruction) bool { return r.isStoreTo(in, field) }) {
 				st := in.(*ssa.Store)
+				if r.isWrapAdvance(st.Val, field) {
+					o.Site(in.Pos(), "%s advanced and wrapped by a helper returning i+1 < len(data) ? i+1 : 0", field)
+					continue
+				}
+				if cl, ok := st.Val.(*ssa.Call); ok && cl.Call.StaticCallee() != nil && inModule(cl.Call.StaticCallee()) {
+					viaField := false
+					for _, a := range cl.Call.Args {
+						if r.isLoad(a, field) {
+							viaField = true
+						}
+					}
+					if viaField {
+						o.Site(in.Pos(), "%s advanced by %s", field, fname(cl.Call.StaticCallee()))
+						o.Fail(in.Pos(), "%s is advanced through %s, which does not return index+1 wrapped to 0 exactly when it reaches len(data)", field, fname(cl.Call.StaticCallee()))
+						continue
+					}
+				}
 				b, ok := st.Val.(*ssa.BinOp)
 				if !ok || b.Op != token.ADD || !r.isLoad(b.X, field) {
 					continue
@@ -408,12 +425,12 @@ func (r *bufRoles) headerWriteShifts(W *ssa.Function, packet *ssa.Parameter) ([]
 		pos = st.Pos()
 		v := strip(st.Val)
 		if b, ok := v.(*ssa.BinOp); ok && b.Op == token.SHR {
-			if k, ok := constInt(b.Y); ok && isLenOf(b.X, func(x ssa.Value) bool { return x == ssa.Value(packet) }) {
+			if k, ok := constInt(b.Y); ok && isLenOf(b.X, func(x ssa.Value) bool { return sameVal(x, packet) }) {
 				out = append(out, k)
 				continue
 			}
 		}
-		if isLenOf(v, func(x ssa.Value) bool { return x == ssa.Value(packet) }) {
+		if isLenOf(v, func(x ssa.Value) bool { return sameVal(x, packet) }) {
 			out = append(out, 0)
 			continue
 		}
@@ -814,7 +831,7 @@ func runC07(c *Ctx) {
 	if start != nil {
 		for _, st := range r.contentStores(W) {
 			o.Site(st.Pos(), "%s", st.String())
-			if !(start == st.Block() || start.Dominates(st.Block())) {
+			if !(start == st.Block() || start.Dominates(st.Block()) || domU(start.Instrs[0], st)) {
 				o.Fail(st.Pos(), "store is not dominated by the limit test region")
 			}
 		}
@@ -987,4 +1004,99 @@ func c07GrowCap(c *Ctx, r *bufRoles) {
 	if !seenMax {
 		o.Fail(g.Pos(), "no comparison with the 4 MiB cap in the growth helper")
 	}
+}
+
+// isWrapAdvance: v is h(<load of field>) where the module function h returns its argument plus one,
+// wrapped to zero when that reaches len(data): the advance and its wrap in one step.
+func (r *bufRoles) isWrapAdvance(v ssa.Value, field string) bool {
+	call, ok := v.(*ssa.Call)
+	if !ok {
+		return false
+	}
+	h := call.Call.StaticCallee()
+	if h == nil || !inModule(h) || len(h.Blocks) == 0 || h.Signature.Results().Len() != 1 {
+		return false
+	}
+	var prm *ssa.Parameter
+	for i, a := range call.Call.Args {
+		if r.isLoad(a, field) && i < len(h.Params) {
+			prm = h.Params[i]
+		}
+	}
+	if prm == nil {
+		return false
+	}
+	isNext := func(x ssa.Value) bool {
+		b, ok := x.(*ssa.BinOp)
+		if !ok || b.Op != token.ADD {
+			return false
+		}
+		k, isC := constInt(b.Y)
+		return isC && k == 1 && b.X == ssa.Value(prm)
+	}
+	// limitFact: the edge establishes next >= len(data) (want=true) or next < len(data) (want=false)
+	limitFact := func(ft fact, want bool) bool {
+		cm, ok := normCmp(ft.Cond, ft.Val)
+		if !ok {
+			return false
+		}
+		isLen := func(x ssa.Value) bool { return isLenOf(x, func(y ssa.Value) bool { return r.isLoad(y, r.data) }) }
+		switch {
+		case isNext(cm.X) && isLen(cm.Y):
+			if want {
+				return cm.Op == token.GEQ || cm.Op == token.EQL
+			}
+			return cm.Op == token.LSS
+		case isLen(cm.X) && isNext(cm.Y):
+			if want {
+				return cm.Op == token.LEQ || cm.Op == token.EQL
+			}
+			return cm.Op == token.GTR
+		}
+		return false
+	}
+	nZero, nNext := 0, 0
+	for _, ret := range findInstrs(h, isReturn) {
+		for _, rv := range retValAt(ret.(*ssa.Return), 0) {
+			for _, leaf := range phiLeavesWithPred(rv) {
+				blk := ret.Block()
+				if leaf.pred != nil {
+					blk = leaf.pred
+				}
+				has := func(want bool) bool {
+					if leaf.pred != nil {
+						return blockHasFact(leaf.pred, phiBlockOf(rv, ret), func(ft fact) bool { return limitFact(ft, want) })
+					}
+					for _, ft := range guardsOfBlock(blk) {
+						if limitFact(ft, want) {
+							return true
+						}
+					}
+					return false
+				}
+				switch {
+				case isConstZero(leaf.v):
+					if !has(true) {
+						return false
+					}
+					nZero++
+				case isNext(leaf.v):
+					if !has(false) {
+						return false
+					}
+					nNext++
+				default:
+					return false
+				}
+			}
+		}
+	}
+	return nZero > 0 && nNext > 0
+}
+
+func phiBlockOf(v ssa.Value, ret ssa.Instruction) *ssa.BasicBlock {
+	if ph, ok := v.(*ssa.Phi); ok {
+		return ph.Block()
+	}
+	return ret.Block()
 }
